@@ -38,6 +38,18 @@ theorem same_of_atFrame_pop {s sX t : Vm} {tf : TryFrame} (hA : AtFrame s sX tf)
   ⟨hs.sp.trans hA.sp, by simpa [Vm.regs] using hs.regs.trans hA.regs, hs.stash.trans hA.stash,
    hs.privEnv.trans hA.privEnv, hs.cs.trans hA.cs, rfl, hs.is.trans hA.is, hs.rs.trans hA.rs⟩
 
+theorem exitThrough_good {s : Vm} {q : Bool} (e : ExitKind) (r : Res)
+    (h : GoodCtl s r ∧ (r.1 ≠ .fatal → r.2.interrupted = q)) :
+    GoodCtl s (exitThrough e r) ∧ ((exitThrough e r).1 ≠ .fatal → (exitThrough e r).2.interrupted = q) := by
+  obtain ⟨o, s1⟩ := r
+  unfold exitThrough
+  cases o with
+  | normal => exact ⟨by simpa [GoodCtl] using h.1, fun _ => h.2 (by simp)⟩
+  | thrown => exact h
+  | fatal => exact h
+  | stuck => exact h
+  | exit e2 => exact h
+
 /-- the `finally` block with the (consumed) frame on top, then leaveFinally -/
 theorem finPhase_good {runF : RunF} (HG : HypG runF) (fin : Beh) (s sX : Vm) (tf : TryFrame) (hI : Inv s)
     (hA : AtFrame s sX tf) (hjs : tf.catchPos ≠ tryPanicMarker) (hcons : isConsumed tf = true) :
@@ -64,6 +76,11 @@ theorem finPhase_good {runF : RunF} (HG : HypG runF) (fin : Beh) (s sX : Vm) (tf
     simp only [GoodCtl] at hc
     exact ⟨by simpa [GoodCtl] using ext_through_frame hA hjs (by simp) hc, by simp⟩
   | stuck => simp [GoodCtl] at hc
+  | exit e =>
+    simp only [GoodCtl] at hc
+    have hts : s1.tryStack = tf :: s.tryStack := hc.ts.trans hA.ts
+    simp only [hts]
+    exact ⟨by simpa [GoodCtl] using same_of_atFrame_pop hA hc, fun _ => hq (by simp)⟩
 
 /-- end of the protected region / of the handler -/
 theorem leaveTry_good {runF : RunF} (HG : HypG runF) (fin : Beh) (s sX : Vm) (tf : TryFrame) (hI : Inv s)
@@ -163,6 +180,14 @@ theorem afterHandler_good {runF : RunF} (HG : HypG runF) (HA : HypA runF) (hasFi
     simp only [GoodCtl] at hc
     exact ⟨by simpa [GoodCtl] using ext_through_frame hA (by simp [hcp, tryPanicMarker]) (by simp) hc, by simp⟩
   | stuck => simp [GoodCtl] at hc
+  | exit e =>
+    simp only [GoodCtl] at hc
+    have hA1 : AtFrame s s1 tf :=
+      ⟨hc.sp.trans hA.sp, hc.regs.trans hA.regs, hc.stash.trans hA.stash, hc.privEnv.trans hA.privEnv,
+       hc.cs.trans hA.cs, hc.is.trans hA.is, hc.rs.trans hA.rs, hc.ts.trans hA.ts⟩
+    have := leaveTry_good HG fin s s1 tf hI hA1 hF.sp hF.stash (by simp [hcp, tryPanicMarker])
+    have := exitThrough_good (q := s1.interrupted) e _ this
+    exact ⟨this.1, fun hn => (this.2 hn).trans (hq (by simp))⟩
 
 /-- **the try statement obeys the discipline** and handleThrow always lands on the statement's own frame
 (`stuck` is unreachable) -/
@@ -188,6 +213,14 @@ theorem tryStmt_good {runF : RunF} (HG : HypG runF) (HA : HypA runF) (hc hf : Bo
     have := leaveTry_good HG fin s s1 tf hI hA1 hF.sp hF.stash hjs
     exact ⟨this.1, fun hn => ((this.2 hn).trans (hq (by simp))).trans p8⟩
   | stuck => simp [GoodCtl] at hctl
+  | exit e =>
+    simp only [GoodCtl] at hctl
+    have hA1 : AtFrame s s1 tf :=
+      ⟨hctl.sp.trans p1, hctl.regs.trans p2, hctl.stash.trans p3, hctl.privEnv.trans p4,
+       hctl.cs.trans p5, hctl.is.trans p6, hctl.rs.trans p7, hctl.ts.trans htf⟩
+    have := leaveTry_good HG fin s s1 tf hI hA1 hF.sp hF.stash hjs
+    have := exitThrough_good (q := s1.interrupted) e _ this
+    exact ⟨this.1, fun hn => ((this.2 hn).trans (hq (by simp))).trans p8⟩
   | fatal =>
     simp only [GoodCtl] at hctl
     exact ⟨by simpa [GoodCtl] using ext_through_frame hA0 hjs (by simp) hctl, by simp [Quiet]⟩
